@@ -36,7 +36,7 @@ pub fn make_histories_sized(seed: u64, n: usize, maxdim: usize, maxextra: u64) -
         let sorenson = rng.chance(2, 3);
         let flavour = if sorenson { Flavour::Sor(rng.below(2) as u8) } else { Flavour::StdPlus };
         let (w, h) = gen_size(&mut rng, maxdim);
-        let (mut w, mut h) = if sorenson { (w, h) } else { (((w + 3) / 4 * 4).max(4), ((h + 3) / 4 * 4).max(4)) };
+        let (mut w, mut h) = if sorenson { (w, h) } else { (((w + 3) / 4 * 4).clamp(4, 2048), ((h + 3) / 4 * 4).clamp(4, 1152)) };
         let len = 3 + rng.below(maxextra) as usize;
         let mut calls = vec![];
         let mut have_ref = false;
@@ -85,7 +85,7 @@ pub fn make_histories_sized(seed: u64, n: usize, maxdim: usize, maxextra: u64) -
                 _ => {
                     if have_ref && rng.chance(1, 3) {
                         let s = gen_size(&mut rng, maxdim);
-                        (w, h) = if sorenson { s } else { (((s.0 + 3) / 4 * 4).max(4), ((s.1 + 3) / 4 * 4).max(4)) };
+                        (w, h) = if sorenson { s } else { (((s.0 + 3) / 4 * 4).clamp(4, 2048), ((s.1 + 3) / 4 * 4).clamp(4, 1152)) };
                         cfg.w = w;
                         cfg.h = h;
                     }
